@@ -133,11 +133,15 @@ def anchored_modules(pid: str, repo):
 
 def common_obligations(ctx, repo, pid):
     """obligations every claimed property inherits: what an anchored function returns must not depend on earlier calls
-    through an unsound memo (CACHE rule) """
+    through an unsound memo (CACHE rule) or through in-place modification of a shared result (ALIAS rule)"""
     from .rules.cache import check_caches
     mods = anchored_modules(pid, repo)
     if mods:
         check_caches(ctx, repo, pid, mods)
+        # ALIAS rule: objects kept in memo containers / handed out by reference must not be modified in place by any caller
+        from .rules.alias import check_aliases, DEFAULT_SCOPE_PREFIXES
+        scope = sorted(n for n in repo.modules if any(n.startswith(p) for p in DEFAULT_SCOPE_PREFIXES))
+        check_aliases(ctx, repo, pid, scope, report_modules=mods)
 
 
 def load_known():
